@@ -69,6 +69,18 @@ pub fn run(ctx: &Ctx) -> Report {
         for f in fails { acc.violation(f.sig, case_id(fam, idx, p, DEFAULT_SECONDARY, true), f.detail); }
     });
     rep.absorb(r);
+    // every single statement of the grammar (all templates, all operand boundary values in every numeric notation the style dimension has)
+    // under 8 renderings that together use every value of every style dimension at least once
+    let f1 = families();
+    let n1 = f1.l1.len() as u64;
+    const EIGHT: [u64; 8] = [0, 3887, 324 * 5 + 17, 324 * 9 + 100, 324 * 2 + 1 + 108, 324 * 7 + 200, 324 * 4 + 55, 324 * 10 + 301];
+    let r = sweep(ctx, n1 * 8, 256, |k, acc| {
+        let (idx, p) = (k / 8, EIGHT[(k % 8) as usize]);
+        let Some((fails, parsed)) = one("L1", idx, p, DEFAULT_SECONDARY) else { return };
+        acc.evals += 1; acc.transitions += 4; acc.nontrivial += 1; acc.count("single_statements_all", 1); if parsed { acc.count("parsed", 1); }
+        for f in fails { acc.violation(f.sig, case_id("L1", idx, p, DEFAULT_SECONDARY, true), f.detail); }
+    });
+    rep.absorb(r);
     // secondary dimensions, one and two at a time
     let bases: [u64; 12] = [0, 3887, 324, 648, 972, 1296 + 5, 1620 + 77, 1944 + 200, 2268 + 13, 2592 + 101, 2916 + 300, 3240 + 250];
     let secs: Vec<u64> = (0..Style::SECONDARY).filter(|s| Style::secondary_weight(*s) <= 2).collect();
